@@ -124,7 +124,8 @@ class ProxiedRegion(BaseClientRegion):
         self._recalc_caps()
 
     def resolve_cap(self, url: str, consume=True) -> Optional[Tuple[str, str, CapType]]:
-        for cap_url in self._caps_url_lookup.keys():
+        # Cap URLs may be prefixes of one another, the most specific one is the cap that was extended.
+        for cap_url in sorted(self._caps_url_lookup.keys(), key=len, reverse=True):
             if url.startswith(cap_url):
                 cap_type, name = self._caps_url_lookup[cap_url]
                 if cap_type == CapType.TEMPORARY and consume:
